@@ -132,6 +132,23 @@ CHECKS = {
               'encoder is run under a watchdog with drain-after-every-send, every 2/3/7, random polling, pauses, drain only at the end, recon on/off, lp 1/2/4: drain-after-every-send must complete and all completed patterns must be byte-identical.'),
         note=('Trusted: Coq kernel; translators/cast.py+tr_buffers.py; the window formula of PoolSpec.v (a specification transcribed from the hold rules of the stages; on the pinned tree the lp=1,2 pools equal it exactly); the abstract model has one window and '
               'in-order completion - recon-pool back-pressure and out-of-order completion are exhibited by the runs only (known finding D23: blocking get_packet after EOS with recon can stall).')),
+    'C06': dict(
+        category='other', design_ref='DESIGN.md §6 C06',
+        technique='Coq theorems on a model of the dispatch macros with the tables regenerated from the rtcd sources + pointer-level correspondence + metamorphic encodes across use_cpu_flags',
+        text=('c06_no_flags_selects_c_reference / c06_variant_needs_its_flag / c06_never_beyond_cpu / c06_choice_depends_on_listed_bits_only: for every flag word and every entry, the dispatch chooses the C reference when no flag is set and a SIMD variant '
+              'only when its flag is both requested and detected (the last listed such variant); c06_library_masks_requested_flags: load_default_buffer_configuration_settings leaves requested & detected in use_cpu_flags (regenerated from EbEncHandle.c). '
+              'The model is compared with the pointers the real setup_common_rtcd_internal / setup_rtcd_internal install for ~60 flag words x 781 pointers, and the same inputs are encoded with C only, ..SSE2, ..SSSE3, ..SSE4.1, ..SSE4.2, ..AVX, ..AVX2 and ALL: '
+              'packets and recon must be byte-identical (8/10 bit, noise, flat, extremes, gradients, screen content, presets 4-8).'),
+        note=('Partial: the theorems decide the dispatch mechanism only; that the selected kernels compute the same function is C07 (differential), and identity of the whole encoder output is observed on the scenarios run. AVX-512 builds are not exercised (the build here has EN_AVX512_SUPPORT=0 and the CPU flags detected are reported in the evidence).')),
+    'C07': dict(
+        category='other', design_ref='DESIGN.md §6 C07',
+        technique='Coq theorem (all sample values) for the lane-sum path of the AVX2 variance kernels instantiated in the source + differential runs of every covered SIMD variant against its C reference, generated from the dispatch tables',
+        text=('c07_variance_sum_exact / c07_variance_instances_within_lane_range / c07_variance_value_agrees: for every AVX2 variance kernel the current source instantiates (block size, reduction helper, strip height regenerated from variance_avx2.c), '
+              'and for all byte differences, the 16-bit lane accumulation cannot wrap and the kernel returns the C reference value. For the other kernels: the dispatch tables of the current source are turned into a differential runner '
+              '(507 SIMD variants: all 8-bit and 16-bit intra predictors, variance, SAD, SADx4, OBMC SAD / variance, spatial distortion, residual, SSE, NxM SAD, picture average) called directly next to their C references on zeros, max, '
+              'alternating, random, large-DC-offset, ramp and sparse-extreme samples, tight / padded strides, unaligned starts, bit depths 8 and 10, widths 4..128.'),
+        note=('Partial: only the variance sum path is proved (LaneSum.v transcribes which lanes meet before widening; the transcribed helpers are pinned by a digest of their text); transforms, convolutions, loop filters, CDEF, restoration, quantisers '
+              'and the high-bit-depth kernels behind CONVERT_TO_SHORTPTR (253 + 18 pointers) are not called by the runner - they are reached only through the whole-encoder runs of C06. AVX-512 variants are not built here.')),
 }
 
 NOT_BUILT_REASON = 'check not built yet in this development (work in progress); no claim is made'
